@@ -854,6 +854,17 @@ func ruleNarrow(p *Program, r *Reporter) {
 					continue
 				}
 				arg := call.Call.Args[len(call.Call.Args)-1]
+				if hc, isCall := arg.(*ssa.Call); isCall {
+					// narrowing delegated to a helper of the module
+					key := p.FnName(fn) + "/16-bit write of " + describeVal(p, fn, call)
+					ok, why := narrowHelperOK(p, hc)
+					if ok {
+						r.OkNT(key, p.Pos(call.Pos()), why)
+					} else {
+						r.Fail(key, p.Pos(call.Pos()), why)
+					}
+					continue
+				}
 				conv, ok := arg.(*ssa.Convert)
 				if !ok {
 					r.Undecided(siteKey(p, fn, call.Pos(), "16-bit write"), p.Pos(call.Pos()), "value written is not a conversion")
@@ -885,6 +896,70 @@ func ruleNarrow(p *Program, r *Reporter) {
 			}
 		}
 	}
+}
+
+// narrowHelperOK: the callee converts to uint16 only under a range test, records
+// the failure in a field, and Prepare turns that record into an error.
+func narrowHelperOK(p *Program, hc *ssa.Call) (bool, string) {
+	h := hc.Call.StaticCallee()
+	if h == nil || fnPkg(h) == nil || !IsLibPath(fnPkg(h).Pkg.Path()) {
+		return false, "the 16-bit value comes from a call that cannot be analysed"
+	}
+	for _, b := range h.Blocks {
+		ret, ok := terminator(b).(*ssa.Return)
+		if !ok || len(ret.Results) != 1 {
+			continue
+		}
+		switch v := ret.Results[0].(type) {
+		case *ssa.Const:
+		case *ssa.Convert:
+			if !guardedByUpperBound(v.X, ret) {
+				return false, "helper " + h.Name() + " truncates to 16 bits on a path that is not guarded by an upper-bound test"
+			}
+		default:
+			return false, "helper " + h.Name() + " returns a value of unrecognised shape"
+		}
+	}
+	// the failure record
+	var rec string
+	for _, b := range h.Blocks {
+		for _, ins := range b.Instrs {
+			if st, ok := ins.(*ssa.Store); ok {
+				if k := fieldKey(st.Addr); k != "" {
+					rec = k
+				}
+			}
+		}
+	}
+	if rec == "" {
+		return false, "helper " + h.Name() + " range-checks the value but records the failure nowhere: the truncated program is still accepted"
+	}
+	a, _ := p.Anchors()
+	if a.prepare == nil {
+		return false, "cannot find Prepare"
+	}
+	for _, b := range a.prepare.Blocks {
+		for _, ins := range b.Instrs {
+			ld, ok := ins.(*ssa.UnOp)
+			if !ok || ld.Op != token.MUL || fieldKey(ld.X) != rec {
+				continue
+			}
+			for _, ref := range liveRefs(ld) {
+				iff, ok := ref.(*ssa.If)
+				if !ok {
+					continue
+				}
+				for _, bb := range a.prepare.Blocks {
+					if iff.Block().Succs[0].Dominates(bb) && len(iff.Block().Succs[0].Preds) == 1 {
+						if ret, ok := terminator(bb).(*ssa.Return); ok && !isSuccessReturn(ret) {
+							return true, "range-checked in " + h.Name() + "; failure recorded in " + rec + " and reported by Prepare"
+						}
+					}
+				}
+			}
+		}
+	}
+	return false, "the range failure recorded in " + rec + " is never turned into an error by Prepare"
 }
 
 func isMapLookup(v ssa.Value) bool {
